@@ -52,10 +52,13 @@ class IntegrateFacts:
             raise AnalysisError('_integrate: fewer than two create_trajectory_row call sites')
         # the row builder's parameters are known by role; a renamed parameter keeps its role by position
         actual = prog.func(C.M_TC, 'create_trajectory_row').positional
-        if len(actual) != len(ROW_ROLES):
+        if len(actual) < len(ROW_ROLES):
             raise AnalysisError(f'create_trajectory_row takes {actual}: not the {len(ROW_ROLES)} roles {ROW_ROLES}')
-        self.row_param_role = dict(zip(actual, ROW_ROLES))
-        self.row_params = list(ROW_ROLES)
+        # further parameters behind the known ones keep their own names as roles (the rules that evaluate the row
+        # builder bind them to unknowns of their own, so a column that comes to depend on one is seen to)
+        extra = [f'extra:{a}' for a in actual[len(ROW_ROLES):]]
+        self.row_param_role = dict(zip(actual, list(ROW_ROLES) + extra))
+        self.row_params = list(ROW_ROLES) + extra
         # state roles from the row sites that pass plain names for (time, position, velocity vector)
         roles = None
         # (names bound only inside the loop are not the state: a sample unpacked into locals before its row is built)
